@@ -546,7 +546,7 @@ func vset(t [3]int) [3]int { // unordered vertex set
 // doubled coordinates).  Any other triangle of the true triangulation has a strictly empty
 // circumdisk with respect to input and super vertices and therefore belongs to every Delaunay
 // triangulation of the extended point set: an exact Bowyer-Watson run cannot lose it.
-const gpClaimMax = 26 // gp_strongb is O(n^4): about 1.3 s of vm_compute at 26 points
+const gpClaimMax = 24 // gp_strongb is O(n^4): about 1 s of vm_compute at 24 points
 
 const failKeyDrop = "triangulation:finite-super-triangle-drops-hull-triangles"
 
